@@ -80,14 +80,13 @@ Qed.
 
 Theorem redefine_when_absent ct c ci s n l' :
   Good ct s -> class_kind ct c = Some KindD -> nth_error ct c = Some ci -> c_fail ci = FNone ->
-  base_unstarred n -> nonempty n = true -> nonempty (cname_of n) = true -> l' <> 0%Z ->
+  base_unstarred n -> nonempty n = true -> nonempty (cname_of n) = true ->
   absent s c n -> absent s c (cname_of n) ->
   exists id, snd (dom_call dom_fuel ct c s (Some n) (Some l') None None) = CRet id true.
 Proof.
-  intros G Hk Eci Ef Hb Hne Hnc Hl An Ac. pose proof G as [I C D].
-  assert (Z0 : Z.eqb l' 0 = false) by (apply Z.eqb_neq; exact Hl).
+  intros G Hk Eci Ef Hb Hne Hnc An Ac. pose proof G as [I C D].
   unfold dom_fuel. rewrite (dom_call_S 7). unfold dom_body. rewrite Eci. cbn [resolve_name]. rewrite dom_len1_none, Hne. cbn [negb].
-  unfold dom_nested. destruct (starred n) eqn:ES; rewrite Z0.
+  unfold dom_nested. destruct (starred n) eqn:ES.
   - (* n = x*: look x up *)
     assert (Hcs : starred (cname_of n) = false) by (destruct Hb as [Hb|Hb]; congruence).
     rewrite (lookup_unstarred_absent 6 ct c ci s (cname_of n) I Eci Hcs Hnc Ac). rewrite sing_true. cbn [is_none].
@@ -111,20 +110,20 @@ Qed.
 
 (* release followed by redefinition, one statement about operations *)
 Theorem release_redefine ct st slot c ci n l l' i ob :
-  Good ct st -> consts_nonzero ct -> get_root st slot = Some i -> live_obj (heap st) i ob ->
+  Good ct st -> get_root st slot = Some i -> live_obj (heap st) i ob ->
   o_cls ob = c -> o_name ob = n -> o_data ob = DDom l ->
-  nth_error ct c = Some ci -> c_fail ci = FNone -> l' <> 0%Z ->
+  nth_error ct c = Some ci -> c_fail ci = FNone ->
   base_unstarred n -> nonempty (cname_of n) = true ->
   ~ Reach (heap st) (root_ids (roots (set_root st slot None))) i ->
   absent st c (cname_of n) ->
   exists id, snd (step ct (fst (step ct st (ODrop slot))) (ODomain slot c (Some n) (Some l') None None)) = Created id.
 Proof.
-  intros G HC Hr Hl Ec En Ed Eci Ef Hl' Hb Hnc NR Ac. pose proof G as [I C D].
+  intros G Hr Hl Ec En Ed Eci Ef Hb Hnc NR Ac. pose proof G as [I C D].
   assert (Hk : class_kind ct c = Some KindD).
   { destruct D as [_ [_ K]]. rewrite <- Ec, (K i ob Hl), Ed. reflexivity. }
-  assert (Hne : nonempty n = true) by (destruct D as [_ [Z _]]; rewrite <- En; apply (proj2 (Z i ob l Hl Ed))).
+  assert (Hne : nonempty n = true) by (destruct D as [_ [Z _]]; rewrite <- En; apply (Z i ob l Hl Ed)).
   set (st1 := fst (step ct st (ODrop slot))).
-  assert (G1 : Good ct st1) by (apply (good_step ct st (ODrop slot) HC Logic.I G)).
+  assert (G1 : Good ct st1) by (apply (good_step ct st (ODrop slot) G)).
   assert (Sub : LiveSub st1 st) by (unfold st1; cbn [step fst]; intros j oj H; apply livesub_collect in H; exact H).
   assert (Dead : is_live (heap st1) i = false).
   { destruct (is_live (heap st1) i) eqn:E; [|reflexivity]. exfalso.
@@ -134,7 +133,7 @@ Proof.
     destruct (uniq_name ct st j i oj ob I Hj0 Hl) as [E _]; [congruence | congruence|]. subst j.
     apply live_obj_is_live in Hj. congruence. }
   assert (Ac1 : absent st1 c (cname_of n)) by (intros j oj Hj; apply (Ac j oj (Sub j oj Hj))).
-  destruct (redefine_when_absent ct c ci st1 n l' G1 Hk Eci Ef Hb Hne Hnc Hl' An Ac1) as [id E].
+  destruct (redefine_when_absent ct c ci st1 n l' G1 Hk Eci Ef Hb Hne Hnc An Ac1) as [id E].
   exists id. cbn [step]. assert (KI : kind_is ct c KindD = true) by (unfold kind_is; rewrite Hk; reflexivity).
   rewrite KI. unfold finish. rewrite E. reflexivity.
 Qed.
@@ -147,9 +146,9 @@ Proof.
   intros H.
   set (st := run ctD (init ctD 2) [ODomain 0 0 (Some nA) (Some 5%Z) None None; ODomain 1 0 (Some nAss) (Some 5%Z) None None]).
   assert (G : Good ctD st).
-  { apply good_run; [exact consts_ctZ | repeat constructor; cbn; discriminate | apply good_init]. }
+  { apply good_run; apply good_init. }
   destruct (H ctD st 1 0 (mkCinfo KindD None 8 5 15 [100%N] (Some 1%Z) FNone) nAss 5%Z 7%Z 2
-              (mkObj 0 nAss (KDom nAss 5) [KDom nAss 5] true [] (DDom 5)) G consts_ctZ) as [id E];
+              (mkObj 0 nAss (KDom nAss 5) [KDom nAss 5] true [] (DDom 5)) G) as [id E];
     try (vm_compute; reflexivity); try discriminate.
   - vm_compute. split; reflexivity.
   - intros R. vm_compute in R. remember 2 as two. inversion R as [x Hs | j x o Rj Hg Hl Hc]; subst.
